@@ -176,7 +176,18 @@ macro_rules! cat_cfg {
                     let norm64: Option<f64> = match norm_kind {
                         0 => None,
                         1 => Some(tab64.iter().copied().sum::<f64>()),
-                        2 => Some(tab64.iter().copied().sum::<f64>() * 1.000001),
+                        2 => {
+                            // slightly off when the sum is finite; otherwise (NaN / infinite entries) a plausible
+                            // finite positive value, so that the entry checks and not the normalisation check
+                            // have to reject the table
+                            let s = tab64.iter().copied().sum::<f64>();
+                            if s.is_finite() {
+                                Some(s * 1.000001)
+                            } else {
+                                let r: f64 = tab64.iter().copied().filter(|x| x.is_finite() && *x > 0.0 && *x < 1e300).sum();
+                                Some(if r > 0.0 && r.is_finite() { r } else { 1.0 })
+                            }
+                        }
                         3 => Some(0.0),
                         4 => Some(-1.0),
                         5 => Some(f64::NAN),
